@@ -56,16 +56,25 @@ def gen_case(run, i):
     if model == 'gain-offset' and kh * kw < 2:
         kw = 3
     style = rng.choice(['random', 'random', 'linear', 'flat-patches'])
-    src = [[rng.randint(1, 15) for _ in range(w)] for _ in range(h)]
+    vmax = 15
+    if i % 16 == 15:
+        # large kernels: windows with more than 255 (and more than 256) jointly valid pixels - counts that do not fit a byte;
+        # values up to 7 keep every sum and product of sums exact in float32
+        h, w = rng.randint(19, 24), rng.randint(19, 24)
+        kh, kw = rng.choice([(17, 17), (13, 21), (19, 15), (17, 19)])
+        vmax = 7
+    src = [[rng.randint(1, vmax) for _ in range(w)] for _ in range(h)]
     if style == 'linear':
         a, b = rng.choice([1, 2, 3]), rng.choice([0, 1, 2])
-        ref = [[min(15, a * v // 2 + b + 1) for v in row] for row in src]
+        ref = [[min(vmax, a * v // 2 + b + 1) for v in row] for row in src]
     elif style == 'flat-patches':
-        src = [[(3 if (r // 3 + c // 3) % 2 else rng.randint(1, 15)) for c in range(w)] for r in range(h)]
-        ref = [[rng.randint(1, 15) for _ in range(w)] for _ in range(h)]
+        src = [[(3 if (r // 3 + c // 3) % 2 else rng.randint(1, vmax)) for c in range(w)] for r in range(h)]
+        ref = [[rng.randint(1, vmax) for _ in range(w)] for _ in range(h)]
     else:
-        ref = [[rng.randint(1, 15) for _ in range(w)] for _ in range(h)]
+        ref = [[rng.randint(1, vmax) for _ in range(w)] for _ in range(h)]
     sm, rm = gen_mask(rng, h, w), gen_mask(rng, h, w)
+    if i % 16 == 15 and i % 32 == 15:
+        sm[:], rm[:] = True, True    # every other large-kernel case: fully valid, so that the central windows are complete
     return dict(i=i, h=h, w=w, model=model, kh=kh, kw=kw, find_r2=rng.random() < 0.6,
                 thresh=rng.choice([None, 0, 0.25, 0.25, 1]) if model == 'gain-offset' else 0.25,
                 src=src, ref=ref, sm=sm.astype(int).tolist(), rm=rm.astype(int).tolist(), style=style)
